@@ -192,6 +192,15 @@ Definition weighted_average (d : list (T * T)) : T * T :=
   let sum3 := fold_left (fun acc p => (acc + sq (snd p - wavg))%num) d (n0 Ops) in
   let se := (N / (N - n1 Ops) / wsum / wsum * (sum1 - nofZ Ops 2 * avg * sum2 + sq avg * sum3))%num in
   (avg, nsqrt Ops se).
+(** DataPoint (Statistics.cpp section 4): a (value, weight) pair.  The constructor `DataPoint(double v = 0.0, double w = 1.0)` stores its
+    two arguments (the defaults are those of the declaration in Statistics.hpp); operator<, operator> and operator== compare the values
+    only: `return (lhs.value < rhs.value);` `return (lhs.value > rhs.value);` `return (lhs.value == rhs.value);` *)
+Definition datapoint (v w : T) : T * T := (v, w).
+Definition datapoint1 (v : T) : T * T := datapoint v (n1 Ops).
+Definition datapoint0 : T * T := datapoint (n0 Ops) (n1 Ops).
+Definition dp_lt (lhs rhs : T * T) : bool := nltb Ops (fst lhs) (fst rhs).
+Definition dp_gt (lhs rhs : T * T) : bool := nltb Ops (fst rhs) (fst lhs).
+Definition dp_eq (lhs rhs : T * T) : bool := neqb Ops (fst lhs) (fst rhs).
 (** `DataPoint(double v = 0.0, double w = 1.0)`: data points built from a value only carry the weight 1 *)
 Definition weighted_average_default (l : list T) : T * T := weighted_average (map (fun v => (v, n1 Ops)) l).
 
